@@ -167,6 +167,12 @@ def rangeLoopT (tr : Val → Option Bool) (isAny : Bool) (f : Val → TOut) (sta
     | .raised => .raised
     | .off => .off
 
+/-- value of a `&&` / `||` chain decided by its last operand -/
+def lastOp (sem : Sem) (f : FloatOps) (v : Val) : TOut :=
+  match sem.lastOperand f v with
+  | some w => .val w
+  | none => .off
+
 def joinStr (t r : Val) : TOut :=
   match t, r with
   | .str t, .str r => .val (.str (t ++ r))
@@ -238,11 +244,7 @@ mutual
       | _, _ => .raised
   def evalBoolT (sem : Sem) (ρ : Env) (isAnd : Bool) : List TExpr → TOut
     | [] => .raised
-    | [e] =>
-      (evalT sem ρ e).bind fun v =>
-        match sem.lastOperand ρ.fops v with
-        | some w => .val w
-        | none => .off
+    | [e] => (evalT sem ρ e).bind (lastOp sem ρ.fops)
     | e :: es =>
       (evalT sem ρ e).bind fun v =>
         match sem.truthy ρ.fops v with
